@@ -354,3 +354,6 @@ Section PA.
     destruct I as (_ & _ & I). exact I.
   Qed.
 End PA.
+
+Lemma potential_clean_now : potential_clean = true.
+Proof. reflexivity. Qed.
